@@ -218,3 +218,22 @@ package putsvc
 //@ func (*Service).ValidateAndStoreObjectLocally
 //@   property C24 C31
 //@   ensures [stored_only_with_exactly_the_declared_payload] err == nil ==> declaredPayloadSize() == uint64(carriedPayloadLen())
+
+// ---- C24 (only well-formed, authentic objects are stored): an object formed by this node on
+// behalf of a V2 session is signed with the node's own key only when the token's subjects
+// include the node (directly or through NNS) - otherwise the stored object's signature would
+// authenticate neither the owner nor the session. A negative or failed authority answer stops
+// the operation.
+
+//@ ghost field authorityDenied(x int) bool
+
+//@ callrule c24_authority_answer in (*Streamer).initTarget
+//@   property C24
+//@   callee *AssertAuthority
+//@   assigns authorityDenied
+//@   defines authorityDenied(0) == (old(authorityDenied(0)) || !res0 || res1 != nil)
+
+//@ func (*Streamer).initTarget
+//@   property C24
+//@   valid !authorityDenied(0)
+//@   ensures [node_key_signs_for_a_session_only_with_its_authority] err == nil ==> !authorityDenied(0)
